@@ -21,3 +21,67 @@ Proof. exact TokenProofs.tok_total. Qed.
 (* once the error is set Next keeps returning false and changes nothing *)
 Theorem err_sticky : err_sticky_statement.
 Proof. exact TokenProofs.err_sticky. Qed.
+
+(* ---- Reset and pooled-stack reuse (Json/TokenReuseModel.v: the scope stack as the Go slice it is -- backing array with
+   its stale slots beyond the length, nilable pointer, sync.Pool contents -- and Reset / NewTokenizer / acquireStack /
+   releaseStack / push / pop / index transcribed line by line from json/token.go) ---- *)
+From Verif Require Import Json.TokenReuseModel Json.TokenReuseSpec Json.TokenReuseProofs.
+
+(* one call of Next on the concrete stack abstracts to one call of the abstract Next, for EVERY content of the slots beyond
+   the length, every pool, every pool policy and growth policy; len <= cap is preserved *)
+Theorem next_refines : next_refines_statement.
+Proof. exact TokenReuseProofs.next_refines. Qed.
+
+(* two tokenizers that differ only in the stale part of the array, the capacity and the pool take the same step *)
+Theorem stale_irrelevant : stale_irrelevant_statement.
+Proof. exact TokenReuseProofs.stale_irrelevant. Qed.
+
+(* a whole run on the concrete stack yields the tokens and the final state of the abstract run *)
+Theorem run_refines : run_refines_statement.
+Proof. exact TokenReuseProofs.run_refines. Qed.
+
+(* Reset(b) on a tokenizer in ANY state (any stack contents and length, error set or not, isKey set or not, leftover
+   input, any pool), then iterating: the same tokens (Value, Delim, Depth, Index, IsKey, Kind, Remaining) and the same
+   final state (Err, isKey, live stack) as a new tokenizer on b *)
+Theorem reset_like_new : reset_like_new_statement.
+Proof. exact TokenReuseProofs.reset_like_new. Qed.
+
+(* NewTokenizer(b) with the pool in any condition (stacks of any capacity, contents and length -- releaseStack does not
+   truncate --, or none): the same as with an unused pool *)
+Theorem pooled_like_new : pooled_like_new_statement.
+Proof. exact TokenReuseProofs.pooled_like_new. Qed.
+
+(* whatever sync.Pool hands out, acquireStack returns a well-formed stack of length 0 *)
+Theorem acquire_empty : acquire_empty_statement.
+Proof. exact TokenReuseProofs.abs_acquire. Qed.
+
+(* after every sequence of Reset / partial iteration / reuse of one tokenizer value, Reset(b) behaves like new *)
+Theorem history_like_new : history_like_new_statement.
+Proof. exact TokenReuseProofs.history_like_new. Qed.
+
+(* Reset(b) produces the very state NewTokenizer(b) produces, up to the pool contents *)
+Theorem reset_is_new : reset_is_new_statement.
+Proof. exact TokenReuseProofs.reset_is_new. Qed.
+
+(* once Err is set Next returns false and changes nothing at all (fields, stack, pool) ... *)
+Theorem err_sticky_c : err_sticky_c_statement.
+Proof. exact TokenReuseProofs.err_sticky_c. Qed.
+
+(* ... for any number of further calls ... *)
+Theorem err_sticky_steps : err_sticky_steps_statement.
+Proof. exact TokenReuseProofs.err_sticky_steps. Qed.
+
+(* ... Next never clears it ... *)
+Theorem err_only_reset : err_only_reset_statement.
+Proof. exact TokenReuseProofs.err_only_reset. Qed.
+
+(* ... and Reset clears it together with every other field *)
+Theorem reset_clears_err : reset_clears_err_statement.
+Proof. exact TokenReuseProofs.reset_clears_err. Qed.
+
+(* the exact token stream of a valid document and termination / sub-slice positions for every byte string, for a tokenizer
+   Reset from any state *)
+Theorem reset_tokens_exact : reset_tokens_exact_statement.
+Proof. exact TokenReuseProofs.reset_tokens_exact. Qed.
+Theorem reset_total : reset_total_statement.
+Proof. exact TokenReuseProofs.reset_total. Qed.
